@@ -956,6 +956,19 @@ def ascii_mutants(data, rnd, tier):
     for i in range(len(lines)):                     # line drop / repeat
         out.append((b'\n'.join(lines[:i] + lines[i + 1:]), 'linedrop'))
         out.append((b'\n'.join(lines[:i + 1] + lines[i:]), 'linerepeat'))
+    # comment / blank / whitespace-only lines at every line position, also as the very last line, with and
+    # without a final newline; files that end in the middle of a comment (at every line start)
+    body = lines[:-1] if lines and lines[-1] == b'' else lines
+    fillers = [b'# a comment', b'#', b'', b'  \t ', b' # indented comment']
+    for i in range(len(body) + 1):
+        for fl in fillers:
+            new = body[:i] + [fl] + body[i:]
+            out.append((b'\n'.join(new) + b'\n', 'fillerline'))
+            if i == len(body):
+                out.append((b'\n'.join(new), 'fillerlast'))                   # last line without newline
+                out.append((b'\n'.join(new) + b'\n' + fl, 'fillerlast'))      # twice, second one unterminated
+        out.append((b'\n'.join(body[:i] + [b'# cut in the mid']), 'commentcut'))
+        out.append((b'\n'.join(body[:i] + [b'#']), 'commentcut'))
     toks = [(m.start(), m.end()) for m in re.finditer(rb'\S+', data)]
     repl = [b'abc', b'-1', b'0', b'1', b'2147483647', b'4294967295', b'4294967296', b'99999999999999999999', b'1e400', b'nan', b'', b'"']
     for (a, b) in toks:
